@@ -229,6 +229,8 @@ def rand_textgrid(rng, hi=5.0, ntiers=(1, 5), nmax=5, labels=None, variants=True
         kind, ents, lo, top, t = rand_tier(rng, "narrow", hi * 0.8, nmax, 0.3, labels, src, full_span=False)
         tg.addTier(t, rng.choice([None, 0]), reportingMode="silence")
         allents.extend((e[0], e[-2], "") for e in ents)
+    if rng.random() < 0.06:
+        refused_edits(tg, rng)  # (the textgrid has a past: edits that were refused and rolled back)
     return tg, allents
 
 
@@ -268,3 +270,41 @@ def piece(name):
         import traceback
 
         REC.aborted.append("%s: %s" % (name, "".join(traceback.format_exception(e))[-1500:]))
+
+
+def big_interval_entries(rng, n, hi=5.0, labels=("a", "b", "c")):
+    """n intervals on decimal timestamps, some touching, some apart - a tier of realistic size (sizes just above 64 / 1024 are where
+    a fast path for large inputs would begin)"""
+    w = hi / (2.2 * n)
+    pos, ents = 0.0, []
+    for _k in range(n):
+        if rng.random() < 0.3:
+            pos = round(pos + w * rng.choice([0.5, 1.0]), 9)
+        a = pos
+        pos = round(pos + w * rng.choice([0.5, 1.0, 1.5]), 9)
+        ents.append((a, pos, rng.choice(labels)))
+    return ents
+
+
+def refused_edits(tg, rng):
+    """A few textgrid edits that the library must refuse (and roll back), made on *tg* right before the operation under test: a wider
+    replacement under reportingMode='error', a rename to a name in use, an added tier whose name is taken.  Whatever they leave
+    behind (a stale memo, a half-restored map) is part of the state the next call starts from."""
+    names = list(tg.tierNames)
+    if not names:
+        return
+    REC.cls("refused-textgrid-edits-before-the-call")
+    n0 = rng.choice(names)
+    t0 = tg.getTier(n0)
+    for attempt in rng.sample(("replace-wider", "rename-clash", "add-clash", "replace-clash"), 2):
+        try:
+            if attempt == "replace-wider":
+                tg.replaceTier(n0, t0.new(maxTimestamp=tg.maxTimestamp + 1.0), "error")
+            elif attempt == "rename-clash" and len(names) > 1:
+                tg.renameTier(n0, [x for x in names if x != n0][0])
+            elif attempt == "add-clash":
+                tg.addTier(t0.new(), reportingMode="silence")
+            elif attempt == "replace-clash" and len(names) > 1:
+                tg.replaceTier(n0, t0.new(name=[x for x in names if x != n0][0]), "silence")
+        except Exception:
+            pass
